@@ -69,3 +69,15 @@ Definition spec_required (df : stage_table) (stages : Z) : list name :=
 (* a path either names a well-formed file or does not exist *)
 Definition wf_opt (p : option file) : Prop :=
   match p with Some f => wf_file f | None => True end.
+
+(* renaming: the fields that are renamed (old name present in the table), under
+   their new names, in the order of the renaming dictionary; and the fields that
+   stay *)
+Definition ren_pairs (t : table) (conv : list (name * name)) : table :=
+  flat_map (fun on => match alookup (fst on) t with Some c => [(snd on, c)] | None => [] end) conv.
+Definition ren_rest (t : table) (conv : list (name * name)) : table :=
+  filter (fun c : col => negb (zmem (fst c) (keys conv))) t.
+
+(* csv: the table a text file denotes — the same rows, every column float64 (3) *)
+Definition retype64 (f : file) : file :=
+  mkFile (map (fun p => (fst p, 3)) (f_schema f)) (f_rows f).
